@@ -1,3 +1,4 @@
+import ast
 """C19 (structure of the rule base) and the regular-language lemmas over the pattern constants
 (also C09(3): no pattern language contains a word with a leading / trailing blank)."""
 import ast
@@ -201,3 +202,103 @@ class VocabUnit:
 
 def units(world):
     return [RegistryUnit(), RegLanUnit(), VocabUnit()]
+
+
+# ---------------------------------------------------------------------------------------------
+# rule() / _map / fwrapper executed on a scratch copy of the registry state (code-level contract)
+def decorator_units(world):
+    import z3
+    from pyvc.values import UTerm, Tok, FuncVal, Obj, PyRaise, Builtin, Unsupported
+    from contracts.extra import FuncUnit
+
+    def with_state(w, fn):
+        rm = w.modules["ctparse.rule"]
+        keys = ("_regex_cnt", "_regex", "_regex_str", "_str_regex", "rules")
+        saved = {k: rm.globals.get(k) for k in keys}
+        rm.globals.update({"_regex_cnt": 101, "_regex": {100: Tok("compiled100")}, "_regex_str": {100: "old pattern"},
+                           "_str_regex": {"old pattern": 100}, "rules": {}})
+        try:
+            return fn(rm)
+        finally:
+            state = {k: rm.globals.get(k) for k in keys}
+            rm.globals.update(saved)
+            fn.state = state
+
+    def mk(case):
+        def setup(it, w):
+            return [case, {}]
+
+        def call(it, w, a):
+            seen = a[1]
+
+            def body(rm):
+                rule_f = rm.globals["rule"]
+                pred = it.call(rm.globals["predicate"], ["isDOM"], {})
+                if case == "new":
+                    pats = [UTerm("input", ["p"], "str"), pred]
+                elif case == "seen":
+                    pats = ["old pattern", pred]
+                elif case == "adjacent":
+                    pats = [UTerm("input", ["p"], "str"), "old pattern"]
+                else:
+                    pats = [pred]
+                seen["pats"] = pats
+                try:
+                    deco = it.call(rule_f, pats, {})
+                except PyRaise as e:
+                    seen["raised"] = e.cls
+                    return None
+                f = FuncVal(ast.parse("def ruleNew(ts, a, b=None): return None").body[0], rm, None, qualname="rules.ruleNew")
+                seen["f"] = f
+                return it.call(deco, [f], {})
+            r = with_state(w, body)
+            seen["state"] = body.state
+            return r
+
+        def ens(it, w, a, r):
+            seen = a[1]
+            st = seen.get("state", {})
+            out = []
+            if case == "adjacent":
+                return [("two-adjacent-patterns-are-rejected", ["C19"], seen.get("raised") == "ValueError")]
+            if seen.get("raised"):
+                # only a pattern that can match the empty string may be rejected
+                cond = [c for c in it.pc if "truthy!" in str(c)]
+                return [("rejected-only-for-an-empty-match", ["C19"], case == "new" and seen["raised"] == "ValueError" and bool(cond))]
+            reg = st.get("rules", {})
+            out.append(("registered-under-the-function-name", ["C19"],
+                        isinstance(reg, dict) and list(reg) == ["ruleNew"] and isinstance(r, FuncVal) and reg["ruleNew"][0] is r))
+            if case == "new":
+                # either the text equals the known pattern (id shared) or a fresh id is allocated
+                shared = st.get("_regex_cnt") == 101
+                out.append(("identical-text-shares-the-id-else-next-free-id", ["C19"],
+                            (shared and st["_str_regex"] == {"old pattern": 100}) or
+                            (st.get("_regex_cnt") == 102 and st["_regex_str"].get(101) is seen["pats"][0]
+                             and list(st["_regex"]) == [100, 101] and len(st["_str_regex"]) == 2)))
+                if not shared:
+                    comp = st["_regex"][101]
+                    src = comp.args[0] if isinstance(comp, UTerm) and comp.args else None
+                    parts = list(src.args) if isinstance(src, UTerm) and src.fn == "concat" else []
+                    lit = "".join(x for x in parts if isinstance(x, str))
+                    out.append(("compiled-as-defines-plus-case-insensitive-named-group", ["C19", "C11"],
+                                isinstance(comp, UTerm) and comp.fn == "regex.compile" and "(?i)(?P<R101>" in lit and lit.endswith(")")
+                                and any(x is seen["pats"][0] for x in parts) and lit.startswith("(?(DEFINE)")))
+            elif case == "seen":
+                out.append(("known-pattern-is-recycled-without-allocation", ["C19"],
+                            st.get("_regex_cnt") == 101 and st["_str_regex"] == {"old pattern": 100} and list(st["_regex"]) == [100]))
+            else:
+                out.append(("no-pattern-no-allocation", ["C19"], st.get("_regex_cnt") == 101))
+            preds = reg.get("ruleNew", (None, []))[1] if isinstance(reg, dict) else []
+            out.append(("one-predicate-per-pattern-element", ["C19", "C15"], len(preds) == len(seen["pats"])
+                        and all(isinstance(x, FuncVal) for x in preds)))
+            return out
+        return FuncUnit("rule.rule[%s]" % case, ["rule.rule"], ["C19", "C11", "C15"], setup, call, ens, check_frame=False,
+                        prop_map={"safety": ["C19"]}, allow_raises=())
+    return [mk(c) for c in ("new", "seen", "adjacent", "nopattern")]
+
+
+_units_c19 = units
+
+
+def units(world):  # noqa: F811
+    return _units_c19(world) + decorator_units(world)
